@@ -520,6 +520,23 @@ impl Monitor for C12 {
                         return format!("{}|minus-directly-followed-by-comment", signature);
                     }
                 }
+                // the same fusion after a rule removed what stood between the minus and the comment: the output holds a
+                // comment that is `-` + a comment of the input
+                if let Some(cfg) = case["config"].as_str() {
+                    if let Ok(Ok(out)) = guarded(|| dl::process_one(text, cfg)) {
+                        let input_comments: Vec<String> = lx.comments().into_iter().map(|c| c.to_string()).collect();
+                        if let Ok(ox) = lex(&out, true) {
+                            for c in ox.comments() {
+                                if let Some(rest) = c.strip_prefix('-') {
+                                    // (a long comment that loses its opening bracket to the minus becomes a line comment: only its first line is left)
+                                    if rest.starts_with("--") && input_comments.iter().any(|i| i.starts_with(rest)) && !input_comments.iter().any(|i| i.as_str() == c) {
+                                        return format!("{}|minus-directly-followed-by-comment", signature);
+                                    }
+                                }
+                            }
+                        }
+                    }
+                }
             }
         }
         signature.to_string()
